@@ -1,7 +1,7 @@
 #!/bin/bash
 # soak: run every registered check at thorough tier over several seeds; report only non-clean lines
-for s in ${SEEDS:-11 12 13}; do
-  for c in ${CHECKS:-C01 C02 C03 C09 C10 C13}; do
-    VERIF_SEED=$s VERIF_WALL_CAP=${CAP:-600} ./check $c --tier thorough 2>&1 | grep -v "^KNOWN" | tail -4 | cut -c1-400
+for s in ${SEEDS:-31 32 33}; do
+  for c in ${CHECKS:-C01 C02 C03 C04 C05 C06 C07 C08 C09 C10 C11 C13 C14 C15 C17 C18 C20}; do
+    VERIF_SEED=$s VERIF_WALL_CAP=${CAP:-300} ./check $c --tier thorough 2>&1 | grep -v "^KNOWN" | tail -4 | cut -c1-400
   done
 done
